@@ -124,7 +124,20 @@ def run_stream(tables, data, enc, pipe):
     return out
 
 
-def run_pipe(tables, items, enc, pipe):
+class _HighFd:
+    def __init__(self, fd):
+        import fcntl
+        import resource
+        soft, hard = resource.getrlimit(resource.RLIMIT_NOFILE)
+        if soft < 700 and (hard == resource.RLIM_INFINITY or hard >= 700):
+            resource.setrlimit(resource.RLIMIT_NOFILE, (700, hard))
+        self.fd = fcntl.fcntl(fd, fcntl.F_DUPFD, 300 + fd)
+
+    def fileno(self):
+        return int(str(self.fd))      # a new int object on every call, as a real file object's fileno() gives
+
+
+def run_pipe(tables, items, enc, pipe, highfd=False):
     """End to end: the keypresses `items` (byte strings) are written to the pipe an Input (bytes naming, paste
     detection on) reads from - all of them have arrived before the first request - and requests with timeout 0
     are made until nothing comes any more.  Returns the keys handed back (pastes flattened) and what was raised."""
@@ -136,7 +149,8 @@ def run_pipe(tables, items, enc, pipe):
     keys, exc = [], ""
     try:
         os.write(pipe.w, data)
-        inp = cinput.Input(in_stream=pipe, keynames=tables.modes["bytes"])
+        stream = _HighFd(pipe.r) if highfd else pipe      # the same pipe under a descriptor number above 256
+        inp = cinput.Input(in_stream=stream, keynames=tables.modes["bytes"])
         quiet = 0
         for _ in range(len(data) + 10):
             try:
@@ -154,6 +168,11 @@ def run_pipe(tables, items, enc, pipe):
                 keys.append(list(x) if isinstance(x, bytes) else [-1])
     finally:
         cinput.getpreferredencoding = orig
+        if highfd:
+            try:
+                os.close(stream.fd)
+            except Exception:  # noqa
+                pass
         import fcntl                      # drain what was not read so that the next case starts clean
         fl = fcntl.fcntl(pipe.r, fcntl.F_GETFL)
         fcntl.fcntl(pipe.r, fcntl.F_SETFL, fl | os.O_NONBLOCK)
